@@ -45,7 +45,7 @@ DATA = 'ABCDEFGHIJKLMNOPQRSTUVWXYZ0123456789 .-/()'
 def tier_config(tier):
     if tier == 'thorough':
         return {'runs': 40000, 'wall': 780, 'det_probe': 8}
-    return {'runs': 1600, 'wall': 100, 'det_probe': 4}
+    return {'runs': 4000, 'wall': 150, 'det_probe': 4}
 
 
 def trailer(rng, sid, true_count, ctl, stats):
